@@ -517,6 +517,12 @@ def execute(case, monitors=(), scratch=None, wall=None, keep_world=False):
                                  '/verif/' not in f.filename for f in tb)
         res['traceback'] = traceback.format_exc()[-3000:]
         res['op_index'] = getattr(world, 'op_index', None)
+        if not res['in_nautilus']:
+            # an exception that never passed through nautilus code is a bug
+            # of the harness, never a verdict about nautilus
+            res['status'] = 'harness'
+            res['error'] = 'harness exception: ' + res['error'] + '\n' + \
+                res['traceback']
     finally:
         if wall:
             signal.setitimer(signal.ITIMER_REAL, 0)
